@@ -142,7 +142,9 @@ impl Monitor for C18 {
                 let keys = if rng.chance(1, 2) { vec![k1.clone(), k2.clone()] } else { vec![k1.clone()] };
                 sel.group_by = Some(keys.clone());
                 for k in &keys { sel.projs.push((k.clone(), None)); }
-                let nagg = 4 + rng.below(5);
+                // usually several aggregates; sometimes a single one next to hidden HAVING aggregates
+                let single = rng.chance(1, 5);
+                let nagg = if single { 1 } else { 4 + rng.below(5) };
                 for i in 0..nagg {
                     let a = match rng.below(9) {
                         0 => E::Agg("count".into(), false, vec![E::Star]),
@@ -157,7 +159,8 @@ impl Monitor for C18 {
                     };
                     sel.projs.push((a, Some(format!("a{}", i))));
                 }
-                if rng.chance(1, 2) { sel.having = Some(bin("AND", bin(">", E::Agg("count".into(), false, vec![E::Star]), int(0)), bin("!=", k1, text("g0")))); }
+                if single { sel.having = Some(bin(">=", E::Agg("max".into(), false, vec![col(*rng.pick(&ints))]), int(rng.range(0, 10)))); }
+                else if rng.chance(1, 2) { sel.having = Some(bin("AND", bin(">", E::Agg("count".into(), false, vec![E::Star]), int(0)), bin("!=", k1, text("g0")))); }
                 // several hidden aggregates in HAVING: which value belongs to which must not depend on a map's iteration order
                 else if rng.chance(1, 2) { sel.having = Some(bin("AND", bin(">=", E::Agg("count".into(), false, vec![E::Star]), int(2)), bin("OR", bin("<", E::Agg("sum".into(), false, vec![col(*rng.pick(&ints))]), int(60)), bin(">", E::Agg("max".into(), false, vec![col(*rng.pick(&ints))]), int(25))))); }
             }
